@@ -928,7 +928,7 @@ theorem outer_eq_flat : ∀ t : Node, outer t = flat (pieces t)
   | .elem k n st sc ind kids => by
     simp only [outer, pieces, flat, Piece.str, flat_append]
     cases sc
-    · simp [innerL_eq_flat kids, flat]
+    · simp [innerL_eq_flat kids]
     · simp [flat]
 theorem innerL_eq_flat : ∀ l : List Node, innerL l = flat (piecesL l)
   | [] => by simp [innerL, piecesL, flat]
@@ -960,8 +960,8 @@ theorem pieces_slim (ssc : Bool) : ∀ t : Node,
   | .elem k n st sc ind kids => by
     simp only [setKind, pieces, endTag_setKind, List.map_cons, List.map_append, slimPiece, startTag_slim_eq]
     cases sc
-    · simp [piecesL_slim ssc kids, slimPiece]
-    · simp [slimPiece]
+    · simp [piecesL_slim ssc kids]
+    · simp
 theorem piecesL_slim (ssc : Bool) : ∀ l : List Node,
     piecesL (setKindL (.slim ssc) l) = (piecesL (setKindL .normal l)).map (slimPiece ssc)
   | [] => by simp [setKindL, piecesL]
